@@ -51,49 +51,52 @@ Print Assumptions C20_single_pass.
 Example C20_single_pass_nonvacuous :
   let e := {| e_custom := []; e_reqh := [(bs "X-Evil", [bs "{status}\{x\}"])]; e_resph := Some [];
               e_cookies := []; e_query := []; e_osenv := [];
-              e_defaults := [(bs "{status}", bs "404")]; e_host := []; e_empty := bs "-" |} in
+              e_defaults := []; e_host := []; e_empty := bs "-";
+              e_method := bs "GET"; e_path := bs "/"; e_curpath := bs "/"; e_rawquery := []; e_proto := bs "HTTP/1.1";
+              e_rec := Some (404%Z, 14) |} in
   expand_env e (bs "{>X-Evil} {status} \{status\} {nope}") = Ok (bs "{status}\{x\} 404 {status} -").
 Proof. vm_compute. reflexivity. Qed.
 
 (* getSubstitution is total on every key Replace can produce, for every request environment
-   and every vocabulary; so is the whole expansion. *)
+   and every dispatch table of the default vocabulary; so is the whole expansion. *)
 Theorem C20_get_substitution_total :
-  forall vocab e key, key_shape key -> exists v, get_subst_chk vocab e key = Ok v.
+  forall tbl e key, key_shape key -> exists v, get_subst_chk tbl e key = Ok v.
 Proof. exact get_subst_total. Qed.
 Print Assumptions C20_get_substitution_total.
 
 Theorem C20_expansion_total :
   forall e fmt, exists out t,
   expand_env e fmt = Ok out /\ template fmt = Ok t /\
-  Forall (fun k => exists v, get_subst_chk gen_c20_vocab e k = Ok v) (keys_of t).
+  Forall (fun k => exists v, get_subst_chk dispatch e k = Ok v) (keys_of t).
 Proof. exact expand_env_total. Qed.
 Print Assumptions C20_expansion_total.
 
 (* Unknown placeholders yield the configured empty-value marker: a key that is not a custom
-   placeholder, not of a prefixed class (> < ~ ? $), not in the default vocabulary and not
+   placeholder, not of a prefixed class (> < ~ ? $), not in the dispatch table of the default vocabulary and not
    {labelN}. *)
 Theorem C20_unknown_placeholder_empty :
-  forall vocab e key k1,
+  forall tbl e key k1,
   assoc key (e_custom e) = None -> idx key 1 = Ok k1 ->
   k1 <> 62 -> k1 <> 60 -> k1 <> 126 -> k1 <> 63 -> k1 <> 36 ->
-  mem key vocab = false -> prefixb lit_label_13 key = false ->
-  get_subst_chk vocab e key = Ok (e_empty e).
+  assoc key tbl = None -> prefixb lit_label_13 key = false ->
+  get_subst_chk tbl e key = Ok (e_empty e).
 Proof. exact unknown_placeholder_empty. Qed.
 Print Assumptions C20_unknown_placeholder_empty.
 
 Example C20_unknown_placeholder_empty_nonvacuous :
   let e := {| e_custom := []; e_reqh := []; e_resph := None; e_cookies := []; e_query := []; e_osenv := [];
-              e_defaults := []; e_host := []; e_empty := bs "-" |} in
-  get_subst_chk gen_c20_vocab e (bs "{nope}") = Ok (bs "-") /\
-  get_subst_chk gen_c20_vocab e (bs "{}") = Ok (bs "-").
+              e_defaults := []; e_host := []; e_empty := bs "-";
+              e_method := bs "GET"; e_path := bs "/"; e_curpath := bs "/"; e_rawquery := []; e_proto := bs "HTTP/1.1"; e_rec := None |} in
+  get_subst_chk dispatch e (bs "{nope}") = Ok (bs "-") /\
+  get_subst_chk dispatch e (bs "{}") = Ok (bs "-").
 Proof. vm_compute. split; reflexivity. Qed.
 
 (* ... and so does a header placeholder naming a header the request does not carry. *)
 Theorem C20_missing_header_empty :
-  forall vocab e key w,
+  forall tbl e key w,
   key_shape key -> assoc key (e_custom e) = None -> idx key 1 = Ok 62 -> key_mid key = Ok w ->
-  hdr_lookup w (e_reqh e) = None -> mem key vocab = false ->
-  get_subst_chk vocab e key = Ok (e_empty e).
+  hdr_lookup w (e_reqh e) = None -> assoc key tbl = None ->
+  get_subst_chk tbl e key = Ok (e_empty e).
 Proof. exact missing_header_empty. Qed.
 Print Assumptions C20_missing_header_empty.
 
@@ -173,33 +176,52 @@ Example C20_one_line_per_log_witnesses :
   = [(1%nat, 500%Z, 26)].
 Proof. vm_compute. repeat split; reflexivity. Qed.
 
-(* Status and size are exact, for EVERY request method and EVERY handler script —
-   contract-breaking ones included: a second WriteHeader, a WriteHeader after the first Write, a
-   written response followed by an error status (the middleware's own fallback WriteHeader then
-   comes too late), a panic after a partial response.  Every line carries the status the
-   underlying writer committed and the number of body bytes it delivered: failed writes are not
-   counted, the fallback error body is, and for a HEAD request — whose body net/http accepts
-   and drops — the size is 0.  ([head_ok]: a HEAD request is answered through a writer that
-   sends no body, which holds for every net/http writer; [final_codes]: no 1xx informational
-   WriteHeader, which the writer model does not cover.) *)
+(* Status and size, for EVERY request method and EVERY handler script — contract-breaking ones
+   included: a second WriteHeader, a WriteHeader after the first Write, a written response followed
+   by an error status (the middleware's own fallback WriteHeader then comes too late), a panic
+   after a partial response — and every way of producing the body: Write, WriteString, io.Copy /
+   io.CopyN / ReadFrom-if-offered from sources that end or fail after any number of bytes, calls
+   that the writer cuts short at any byte.  Every line carries the status the underlying writer
+   committed, and its size plus the bytes accepted by calls that reported an error (u_lost) is
+   the number of body bytes the writer accepted: the fallback error body is counted, for a HEAD
+   request — whose body net/http accepts and drops — the size is 0.  ([head_ok]: a HEAD request
+   is answered through a writer that sends no body, which holds for every net/http writer;
+   [final_codes]: no 1xx informational WriteHeader, which the writer model does not cover.) *)
 Theorem C20_logged_status_size_exact :
   forall c cs tbl ek rules path ops ret,
   head_ok c = true -> final_codes ops = true ->
   let '(u', _, _, lines) := log_serve c cs tbl ek rules path ops ret uw0 return Prop in
-  forall l, In l lines -> snd (fst l) = client_status u' /\ snd l = u_size u'.
+  forall l, In l lines -> snd (fst l) = client_status u' /\ snd l + u_lost u' = u_size u'.
 Proof. exact logged_exact. Qed.
 Print Assumptions C20_logged_status_size_exact.
 
+(* with all-or-nothing writer failures (a failing Write accepted nothing, a copy is cut at a
+   chunk boundary — and ANY behaviour of the sources) size is the accepted byte count itself *)
+Theorem C20_logged_status_size_exact_all_or_nothing :
+  forall c cs tbl ek rules path ops ret,
+  head_ok c = true -> final_codes ops = true -> clean_cuts ops = true ->
+  let '(u', _, _, lines) := log_serve c cs tbl ek rules path ops ret uw0 return Prop in
+  forall l, In l lines -> snd (fst l) = client_status u' /\ snd l = u_size u'.
+Proof. exact logged_exact_clean. Qed.
+Print Assumptions C20_logged_status_size_exact_all_or_nothing.
+
 (* the same for a whole request through the site, whatever sits between log and the handler
-   (errors directive, header directive) and the server's own fallback included: the lines
-   equal what the client sees *)
+   (errors directive, header directive) and the server's own fallback included *)
 Theorem C20_site_logged_exact :
   forall c cs tbl (haserr hdrw : bool) ds path ops ret,
   head_ok c = true -> final_codes ops = true ->
+  let '(u', lines) := site_run c cs tbl haserr hdrw ds path ops ret return Prop in
+  forall l, In l lines -> snd (fst l) = client_status u' /\ snd l + u_lost u' = u_size u'.
+Proof. exact site_run_exact. Qed.
+Print Assumptions C20_site_logged_exact.
+
+Theorem C20_site_logged_exact_all_or_nothing :
+  forall c cs tbl (haserr hdrw : bool) ds path ops ret,
+  head_ok c = true -> final_codes ops = true -> clean_cuts ops = true ->
   let '(st, sz, lines) := site_serve c cs tbl haserr hdrw ds path ops ret return Prop in
   forall l, In l lines -> snd (fst l) = st /\ snd l = sz.
 Proof. exact site_logged_exact. Qed.
-Print Assumptions C20_site_logged_exact.
+Print Assumptions C20_site_logged_exact_all_or_nothing.
 
 (* the former refutation witnesses now log what the client got (F-C20-5: the recorder kept the
    LAST WriteHeader argument; F-C20-2: for HEAD the error body was counted but never sent) *)
@@ -215,3 +237,159 @@ Example C20_site_logged_exact_nonvacuous :
   site_serve {| w_nethttp := true; w_head := true |} false [(404%Z, 14)] false false
     [ {| d_scope := bs "/"; d_except := [] |} ] (bs "/x") [] 404%Z = (404%Z, 0, [(0%nat, 404%Z, 0)]).
 Proof. vm_compute. repeat split; reflexivity. Qed.
+
+(* a copy whose source fails after 70000 bytes, then a Write: all 70005 bytes are logged; a copy
+   that the writer cuts at byte 40000: the first full chunk (32768) is logged, 7232 are lost *)
+Example C20_logged_status_size_exact_nonvacuous :
+  site_serve {| w_nethttp := true; w_head := false |} false [] false false
+    [ {| d_scope := bs "/"; d_except := [] |} ] (bs "/x") [OB BCopy 70000 true None; OW 5 None] 0%Z
+  = (200%Z, 70005, [(0%nat, 200%Z, 70005)]) /\
+  site_run {| w_nethttp := true; w_head := false |} false [] false false
+    [ {| d_scope := bs "/"; d_except := [] |} ] (bs "/x") [OB BCopy 70000 false (Some 40000); OW 5 None] 0%Z
+  = ({| u_status := Some 200%Z; u_size := 40000; u_lost := 7232; u_dead := true |}, [(0%nat, 200%Z, 32768)]).
+Proof. vm_compute. split; reflexivity. Qed.
+
+(* ============================ {size} and the bytes the writer accepted ======================== *)
+
+(* FULL statement wanted by the property: {size} = the number of body bytes the underlying writer
+   accepted, for all op sequences including partial transfers.  It is FALSE of the code as it is
+   (F-C20-6): ResponseRecorder.Write adds the count of a call only when the call reported no
+   error, so a Write that the connection cuts short after accepting some bytes counts none of
+   them.  Witness: the client aborts while one 8 MiB Write is in flight — 847721 bytes accepted
+   (the client may have read any part of them), {size} = 0. *)
+Theorem C20_size_counts_accepted_bytes_refuted :
+  exists c ops, head_ok c = true /\ final_codes ops = true /\
+    let '((u, r), _) := run c (uw0, rec0) ops return Prop in logged_size c r < u_size u.
+Proof. exact size_accepted_refuted. Qed.
+Print Assumptions C20_size_counts_accepted_bytes_refuted.
+
+(* Strongest true statement, over ALL op sequences (Write, WriteString, io.Copy / io.CopyN /
+   ReadFrom-if-offered, every source ending or failing after any number of bytes, every call cut
+   short by the writer at any byte, repeated and late WriteHeader calls, panics): the recorded
+   status is the committed one; accepted bytes = {size} + the bytes accepted by calls that
+   reported an error; and when writer-side failures are all-or-nothing — in particular whenever
+   the client reads the whole response, whatever the SOURCES of the transfers do — nothing is
+   lost and {size} is exactly the accepted byte count. *)
+Theorem C20_size_counts_accepted_bytes_partial :
+  forall c ops, head_ok c = true -> final_codes ops = true ->
+  let '((u, r), _) := run c (uw0, rec0) ops return Prop in
+  client_status u = r_status r /\
+  u_size u = logged_size c r + u_lost u /\
+  (clean_cuts ops = true -> u_lost u = 0 /\ u_size u = logged_size c r).
+Proof. exact size_accepted_partial. Qed.
+Print Assumptions C20_size_counts_accepted_bytes_partial.
+
+Example C20_size_counts_accepted_bytes_partial_nonvacuous :
+  let c := {| w_nethttp := true; w_head := false |} in
+  let ops := [OWH 200%Z; OB BCopy 100000 true None; OB BWrite 0 false None; OB BCopy 0 true None; OB BCopy 5 false None] in
+  head_ok c = true /\ final_codes ops = true /\ clean_cuts ops = true /\
+  run c (uw0, rec0) ops =
+  (({| u_status := Some 200%Z; u_size := 100005; u_lost := 0; u_dead := false |},
+    {| r_status := 200%Z; r_size := 100005; r_wrote := true |}), false).
+Proof. vm_compute. repeat split; reflexivity. Qed.
+
+(* A source that FAILS part-way (upstream reset, file read error, short source of CopyN) is, for
+   the writer and the recorder, a source that ends there: the run is the same as with every
+   source ending regularly, and with no writer-side failure {size} is the accepted byte count.
+   (What the seeded change C20-m3 breaks: its ReadFrom drops the count of a transfer whose
+   source reports an error.) *)
+Theorem C20_source_failures_lose_nothing :
+  forall c ops, head_ok c = true -> final_codes ops = true -> uncut ops = true ->
+  run c (uw0, rec0) ops = run c (uw0, rec0) (map clear_srcerr ops) /\
+  let '((u, r), _) := run c (uw0, rec0) ops return Prop in u_size u = logged_size c r.
+Proof. exact source_failures_lose_nothing. Qed.
+Print Assumptions C20_source_failures_lose_nothing.
+
+(* ============================ concurrently issued requests ==================================== *)
+
+(* The server as a heap of per-request objects (the customReplacements map of the replacer that
+   Server.ServeHTTP allocates for the request and stores in ITS context, the recorder around ITS
+   connection) and a context table.  For EVERY interleaving of the steps of any number of
+   requests (arrival, Replacer.Set by any middleware, WriteHeader / body calls of the handler),
+   the state of request i is what the request reaches when it is served alone with its own
+   steps in their order: no step of another request can change a placeholder or the recorded
+   status / size of request i. *)
+Theorem C20_requests_do_not_share_placeholders :
+  forall (sched : list (nat * rstep)) (i : nat),
+  view (world_run sched world0) i = solo (proj i sched) None.
+Proof. exact requests_do_not_share. Qed.
+Print Assumptions C20_requests_do_not_share_placeholders.
+
+(* ... hence the access-log line of request i (any format, any request data) is a function of
+   the steps of request i only: two schedules that agree on them give the same line *)
+Theorem C20_line_depends_on_own_steps :
+  forall sched1 sched2 i fmt base,
+  proj i sched1 = proj i sched2 ->
+  req_line fmt base (view (world_run sched1 world0) i) = req_line fmt base (view (world_run sched2 world0) i).
+Proof. exact line_depends_on_own_steps. Qed.
+Print Assumptions C20_line_depends_on_own_steps.
+
+(* two requests interleaved step by step, each setting {upstream} and writing its own body *)
+Example C20_requests_do_not_share_placeholders_nonvacuous :
+  let c := {| w_nethttp := true; w_head := false |} in
+  let base := {| e_custom := []; e_reqh := []; e_resph := None; e_cookies := []; e_query := []; e_osenv := [];
+                 e_defaults := []; e_host := []; e_empty := bs "-"; e_method := bs "GET"; e_path := bs "/";
+                 e_curpath := bs "/"; e_rawquery := []; e_proto := bs "HTTP/1.1"; e_rec := None |} in
+  let sched := [ (1%nat, RStart c); (2%nat, RStart c); (1%nat, RSet (bs "upstream") (bs "one"));
+                 (2%nat, RSet (bs "upstream") (bs "two")); (2%nat, ROp (OWH 404%Z)); (1%nat, ROp (OW 7 None));
+                 (2%nat, ROp (OW 3 None)); (1%nat, RSet (bs "user") (bs "u1")) ] in
+  req_line (bs "{upstream} {user} {status} {size}") base (view (world_run sched world0) 1%nat) = Some (Ok (bs "one u1 200 7")) /\
+  req_line (bs "{upstream} {user} {status} {size}") base (view (world_run sched world0) 2%nat) = Some (Ok (bs "two - 404 3")).
+Proof. vm_compute. split; reflexivity. Qed.
+
+(* ============================ the placeholder vocabulary ====================================== *)
+
+(* The labels of getSubstitution's switch, regenerated from the Go source on every run
+   (Gen_C20.gen_c20_vocab), are exactly the keys of the model's dispatch table: a placeholder
+   added to the code without a model entry (or a modelled one removed from the code) makes the
+   computed check false and this theorem no longer compiles. *)
+Theorem C20_vocabulary_is_dispatch_table :
+  forall key, mem key gen_c20_vocab = true <-> exists h, assoc key dispatch = Some h.
+Proof. exact vocabulary_is_dispatch. Qed.
+Print Assumptions C20_vocabulary_is_dispatch_table.
+
+(* which labels the model computes itself (the others are oracle values handed in) *)
+Example C20_vocabulary_functionally_modelled :
+  length gen_c20_vocab = 46%nat /\ length (filter (fun p => is_fn (snd p)) dispatch) = 25%nat.
+Proof. vm_compute. split; reflexivity. Qed.
+
+(* ============================ how much an aborted transfer can lose =========================== *)
+
+(* When can {size} and what the client received differ?  Only when the client closes the
+   connection before it has read the response: bytes the writer accepted may sit in socket
+   buffers the client never reads ({size} may exceed what was received: inherent), and — the
+   open finding F-C20-6 — the bytes accepted by the call that was cut short are missing from
+   {size}.  On a net/http connection the first failed write makes every later Write fail with 0
+   bytes, so for EVERY script the missing bytes are those of ONE call: at most a whole Write,
+   less than one 32 KiB chunk of a copy; and nothing is missing as long as no call has failed. *)
+Theorem C20_abort_loses_at_most_one_call :
+  forall c ops, w_nethttp c = true -> cuts_within ops = true ->
+  let '((u, r), _) := run c (uw0, rec0) ops return Prop in
+  u_lost u <= max_loss ops /\ (u_dead u = false -> u_lost u = 0).
+Proof. exact abort_loses_one_call. Qed.
+Print Assumptions C20_abort_loses_at_most_one_call.
+
+Example C20_abort_loses_at_most_one_call_nonvacuous :
+  let c := {| w_nethttp := true; w_head := false |} in
+  let ops := [OW 100000 None; OB BCopy 70000 false (Some 40000); OW 8388608 (Some 0); OW 100 (Some 0)] in
+  cuts_within ops = true /\
+  run c (uw0, rec0) ops =
+  (({| u_status := Some 200%Z; u_size := 140000; u_lost := 7232; u_dead := true |},
+    {| r_status := 200%Z; r_size := 132768; r_wrote := true |}), false).
+Proof. vm_compute. split; reflexivity. Qed.
+
+Example C20_source_failures_lose_nothing_nonvacuous :
+  let c := {| w_nethttp := false; w_head := false |} in
+  let ops := [OB BCopy 2000 true None; OB BCopy 3 true None] in
+  head_ok c = true /\ final_codes ops = true /\ uncut ops = true /\
+  snd (fst (run c (uw0, rec0) ops)) = {| r_status := 200%Z; r_size := 2003; r_wrote := true |}.
+Proof. vm_compute. repeat split; reflexivity. Qed.
+
+(* two different interleavings with the same steps of request 1 *)
+Example C20_line_depends_on_own_steps_nonvacuous :
+  let c := {| w_nethttp := true; w_head := false |} in
+  let s1 := [ (1%nat, RStart c); (2%nat, RStart c); (2%nat, RSet (bs "upstream") (bs "two")); (1%nat, RSet (bs "upstream") (bs "one")) ] in
+  let s2 := [ (2%nat, RStart c); (1%nat, RStart c); (1%nat, RSet (bs "upstream") (bs "one")); (3%nat, RStart c); (2%nat, ROp OPanic) ] in
+  proj 1 s1 = proj 1 s2 /\ s1 <> s2 /\
+  option_map q_custom (view (world_run s1 world0) 1%nat) = Some [(bs "{upstream}", bs "one")].
+Proof. vm_compute. repeat split; try reflexivity. discriminate. Qed.
